@@ -121,6 +121,28 @@ theorem C10_schedule_is_reference_partial {H : Type} (step : T → Action T V E)
   have : (drive step host s h (Runtime.new main) 0).2.2.1 = k := by omega
   rw [this, e1]
 
+/-- **Runs to the end agree.**  For a program without tasks, any two embedder schedules that both ran the
+    program to its end — the run queue is empty (main finished) or holds only the failed main thread —
+    end with the same host state (the complete output) and the same runtime (final value, error kind and
+    location carried by the main thread, total number of executed instructions = length of `trace`). -/
+theorem C10_finished_runs_agree_partial {H : Type} (step : T → Action T V E) (hs : NoSpawn step)
+    (host : H → Nat → T → H × T) (s₁ s₂ : List (Nat × Bool)) (h : H) (main : T)
+    (hf₁ : Fin (drive step host s₁ h (Runtime.new main : Runtime T V E) 0).2.1)
+    (hf₂ : Fin (drive step host s₂ h (Runtime.new main : Runtime T V E) 0).2.1) :
+    (drive step host s₁ h (Runtime.new main : Runtime T V E) 0).1 = (drive step host s₂ h (Runtime.new main) 0).1 ∧
+    (drive step host s₁ h (Runtime.new main : Runtime T V E) 0).2.1 = (drive step host s₂ h (Runtime.new main) 0).2.1 := by
+  have hr : Single (Runtime.new main : Runtime T V E) := ⟨rfl, Or.inr ⟨_, rfl, rfl⟩⟩
+  have := drive_single_finished step hs host s₁ s₂ h _ hr hf₁ hf₂
+  exact ⟨(Prod.mk.inj this).1, (Prod.mk.inj this).2⟩
+
+/-- non-vacuity: a three-instruction program (`cont`, `host`, `stop`) run to its end under two schedules -/
+example :
+    let step : Nat → Action Nat Nat Nat := fun t =>
+      if t = 0 then .cont 1 else if t = 1 then .host 0 2 else .stop 3
+    Fin (drive step (fun (h : List Nat) n t => (h ++ [n], t)) (List.replicate 4 (1, true)) [] (Runtime.new 0 : Runtime Nat Nat Nat) 0).2.1 ∧
+    Fin (drive step (fun (h : List Nat) n t => (h ++ [n], t)) [(5, false), (2, true), (9, true)] [] (Runtime.new 0 : Runtime Nat Nat Nat) 0).2.1 := by
+  refine ⟨⟨rfl, Or.inl rfl⟩, ⟨rfl, Or.inl rfl⟩⟩
+
 example : NoSpawn (fun (t : Nat) => (Action.cont (t + 1) : Action Nat Nat Nat)) := by
   intro t c t' h; cases h
 
